@@ -1,7 +1,7 @@
 (* C09 - NFA equality decides language equivalence exactly. *)
 From Coq Require Import List Arith Bool.
 From AV Require Import Base.Util Spec.Lang Spec.FA Model.Decide Model.Product Model.Build Model.Subset
-     Proofs.Decide Proofs.Subset.
+     Proofs.Decide Proofs.Subset Model.HK Proofs.HK.
 Import ListNotations.
 
 (* == / != : whenever the comparison returns (always for operands with at most 14 states in total; the
@@ -39,4 +39,36 @@ Example C09_example :
   let C := mknfa [0;1] [0] [(0,[(Some 0,[1])]);(1,[(Some 0,[1])])] 0 [1] in    (* a+ *)
   valid_nfa A = true /\ valid_nfa B = true /\ valid_nfa C = true /\
   nfa_eq_m A B = Ok true /\ nfa_eq_m A C = Ok false /\ nfa_ne_m C B = Ok true.
+Proof. vm_compute. repeat split. Qed.
+
+(* == as it is coded (Model/HK.v: the same Hopcroft-Karp loop over subset states, initial pair = the two lambda
+   closures, is_final_state through the lambda closures of the members): for every iteration order of the symbols
+   and every tie-break of the union-find, whenever the mirror model returns its boolean is language equality, it
+   agrees with the specification model nfa_eq_m whenever both return, and within the size bound under which nfa_eq_m
+   is known to return (C09_eq_total) the two models are the same function of the operands. *)
+Theorem C09_hk_eq_faithful : forall A B tie syms, valid_nfa A = true -> valid_nfa B = true ->
+  (forall a, In a syms <-> In a (n_syms A)) ->
+  (forall b, nfa_hk_eq_gen tie syms A B = Ok b -> (b = true <-> L_nfa A =L L_nfa B)) /\
+  (forall b b', nfa_hk_eq_gen tie syms A B = Ok b -> nfa_eq_m A B = Ok b' -> b = b') /\
+  (length (n_states A) + length (n_states B) <= 14 -> nfa_hk_eq_gen tie syms A B = nfa_eq_m A B).
+Proof.
+  intros A B tie syms HA HB Hs. split; [|split].
+  - exact (nfa_hk_sound A B HA HB tie syms Hs).
+  - exact (nfa_hk_agrees A B HA HB tie syms Hs).
+  - exact (nfa_hk_eq_gen_nfa_eq_m A B HA HB tie syms Hs).
+Qed.
+Print Assumptions C09_hk_eq_faithful.
+
+(* the variant of the loop that also records the arguments of every union call (compared call by call with what a
+   spy on networkx's UnionFind observes) is the same loop *)
+Theorem C09_hk_trace_model : forall tie syms A B, fst (nfa_hk_eq_log tie syms A B) = nfa_hk_eq_gen tie syms A B.
+Proof. exact nfa_hk_eq_log_fst. Qed.
+Print Assumptions C09_hk_trace_model.
+
+Example C09_hk_example :
+  let A := mknfa [0;1] [0] [(0,[(None,[1])]);(1,[(Some 0,[1])])] 0 [1] in     (* a* with an epsilon edge *)
+  let B := mknfa [0] [0] [(0,[(Some 0,[0])])] 0 [0] in                         (* a* *)
+  let C := mknfa [0;1] [0] [(0,[(Some 0,[1])]);(1,[(Some 0,[1])])] 0 [1] in    (* a+ *)
+  nfa_hk_eq A B = Ok true /\ nfa_hk_eq B A = Ok true /\ nfa_hk_eq A C = Ok false /\
+  nfa_hk_eq_gen (fun _ _ => false) [0] C B = Ok false.
 Proof. vm_compute. repeat split. Qed.
